@@ -14,6 +14,7 @@
 From Coq Require Import NArith List Bool.
 From RsM Require Import Model.Lifecycle Model.LifecycleSpec
   Proofs.LifecycleFacts Proofs.LifecycleInv Proofs.LifecycleTheorems Proofs.LifecycleWitness.
+(* -- *)
 Import ListNotations.
 Open Scope N_scope.
 
